@@ -45,6 +45,17 @@ def _finding_of(tree, node_id):
     return None
 
 
+def _spellable(tree, node_id):
+    """spec `spellable`: every Dict/Compound child on the way has a non-empty name and only the last may end in a
+    backslash"""
+    chain = _path_nodes(tree, node_id)
+    for i, (parent, child) in enumerate(chain):
+        if parent["k"] in ("d", "c"):
+            if child["name"] == "" or (child["name"].endswith("\\") and i < len(chain) - 1):
+                return False
+    return True
+
+
 EXH_ALPHABET = ["/", "[", "]", ".", "\\", "a", "0"]
 
 
@@ -58,6 +69,10 @@ class C13(Property):
         "Flatland.C13.Proofs.tokenize_fqName",
         "Flatland.C13.Proofs.C13_partial",
         "Flatland.C13.Proofs.find_fq_addressable",
+        "Flatland.C13.Proofs.find_fq_iff",
+        "Flatland.C13.Proofs.pathOK_of_find_fq",
+        "Flatland.C13.Proofs.C13_key_mismatch_fails",
+        "Flatland.C13.Proofs.C13_full_fails_key_general",
         "Flatland.C13.Proofs.C13_full_fails",
         "Flatland.C13.Proofs.C13_full_fails_backslash",
         "Flatland.C13.Proofs.C13_backslash_dot_ok",
@@ -83,12 +98,19 @@ class C13(Property):
         "Proved in Lean: find(start, fq_name(pos), strict or not, single or not) = pos for every tree, every start and "
         "every position that is PathOK (find_fq, find_one_fq; PathOK follows from spec B's `addressable` plus the "
         "tree invariants TreeInv, find_fq_addressable), including the tokenizer on the emitted path "
-        "(tokenize_fqName) and int(str(i)) = i (pyInt_natStr); fqName_root ('/' for the root) holds by construction "
-        "(rfl on the model). `addressable` is sufficient, not shown necessary: the unrestricted law is refuted by three "
-        "witnesses that satisfy TreeInv, one per excluded condition (C13_full_fails: field named ''; "
-        "C13_full_fails_backslash: the child of a Dict named 'y\\\\'; C13_full_fails_key: an element stored under a key "
-        "different from its name — [KeyIsName] is an explicit hypothesis of `addressable`, not part of TreeInv), but no "
-        "converse theorem says every non-addressable position fails; C13_backslash_dot_ok: the field 'a\\\\.b' fixed by "
+        "(tokenize_fqName, now under the spelling conditions SpellOK alone) and int(str(i)) = i (pyInt_natStr); "
+        "fqName_root ('/' for the root) holds by construction (rfl on the model). CONVERSE (h5): on every position whose "
+        "Dict names can be spelled (`spellable`: non-empty, no backslash at the end of a non-final name) `addressable` is "
+        "EXACT — find(fq_name(pos)) = [pos] from any start IF AND ONLY IF the position is addressable, i.e. iff every Dict "
+        "child on the way is stored under its own name (find_fq_iff; pathOK_of_find_fq: a successful round trip forces "
+        "every lookup on the way to hit its own child); KF-C13-c is thereby a general theorem (C13_key_mismatch_fails: "
+        "every spellable, non-addressable position breaks the law from every start; the old witness is an instance, "
+        "C13_full_fails_key_general). NOT proved necessary: the two unspellable classes (a Dict field named '' — KF-C13-b, "
+        "C13_full_fails; anything below a name ending in a backslash — KF-C13-a, C13_full_fails_backslash) are still "
+        "refuted by one witness each, because the converse there needs the tokenizer on arbitrary (ill-formed) emitted "
+        "strings; the Lean runner re-checks the iff on every spellable position of every generated tree and the "
+        "correspondence compares the outcome of every unspellable one with the code. "
+        "C13_backslash_dot_ok: the field 'a\\\\.b' fixed by "
         "b49b3eb satisfies the law. Members removed from a List are outside model A (one tree): oracle only, expected to "
         "be roots of their own (KF-C13-d). Tied to the code by correspondence: fq_name()/find() of every element of "
         "random and exhaustively enumerated trees, also after histories of list mutations with queries in between.")
@@ -402,6 +424,15 @@ class C13(Property):
             t.append("in-class:%s" % f)
         if fids == {None}:
             t.append("all-addressable")
+        # territory of find_fq_iff: spellable positions (no '' / non-final trailing-backslash Dict names on the way)
+        for n in nodes:
+            f = _finding_of(case["tree"], n["id"])
+            if f == "KF-C13-c" and _spellable(case["tree"], n["id"]):
+                t.append("iff:spellable-not-addressable")
+            elif f is None:
+                t.append("iff:spellable-addressable")
+            elif f in ("KF-C13-a", "KF-C13-b"):
+                t.append("unspellable:%s" % f)
         ok = sum(1 for f in obs["found"] if f[2] == {"list": [f[0]]})
         t.append("found-ok=%d%%" % (100 * ok // max(1, len(obs["found"])) // 10 * 10))
         pm = cm.parent_map(case["tree"])
